@@ -121,7 +121,9 @@ func init() {
 	replayers["script"] = func(m *ref.Model, cs map[string]interface{}) bool {
 		n, l := toInt(cs["count"]), toInt(cs["lang"])
 		script, _ := cs["script"].(string)
-		bad, outcome := runScript(m, n, l, parseScript(script))
+		sticky, _ := cs["sticky"].(bool)
+		variant, _ := cs["variant"].(string)
+		bad, outcome := runScript(m, n, l, parseScript(script), sticky, variant)
 		fmt.Printf("NewMnemonic(%d, %s) over source script [%s]\n outcome: %s %s\n", n, ref.LangNames[l], script, outcome, bad)
 		return bad == ""
 	}
@@ -195,6 +197,28 @@ func init() {
 		s1, s2 := bip39.MnemonicToSeed(m1, p1), bip39.MnemonicToSeed(m2, p2)
 		fmt.Printf("MnemonicToSeed(%+q, %+q) = %x\nMnemonicToSeed(%+q, %+q) = %x   (components have equal NFKD forms)\n", m1, p1, s1, m2, p2, s2)
 		return string(s1) == string(s2)
+	}
+	replayers["seedseq"] = func(m *ref.Model, cs map[string]interface{}) bool {
+		calls, _ := cs["calls"].([]interface{})
+		var first, last []byte
+		for i := 0; i+1 < len(calls); i += 2 {
+			mn, pw := string(unhex(calls[i])), string(unhex(calls[i+1]))
+			out := bip39.MnemonicToSeed(mn, pw)
+			fmt.Printf("MnemonicToSeed(%+q, %+q) = %x\n", mn, pw, out)
+			if i == 0 {
+				first = out
+			}
+			last = out
+		}
+		fmt.Println("(first and last call have the same arguments)")
+		return string(first) == string(last)
+	}
+	replayers["checkafter"] = func(m *ref.Model, cs map[string]interface{}) bool {
+		first, s, l := string(unhex(cs["first"])), string(unhex(cs["sentence"])), toInt(cs["lang"])
+		e1 := bip39.CheckMnemonic(first, Langs[l])
+		e2 := bip39.CheckMnemonic(s, Langs[l])
+		fmt.Printf("CheckMnemonic(%q) = %v\nthen CheckMnemonic(%q) = %v (a valid sentence)\n", first, e1, s, e2)
+		return e2 == nil
 	}
 	replayers["seed-fresh"] = func(m *ref.Model, cs map[string]interface{}) bool {
 		mn, pw := string(unhex(cs["mnemonic"])), string(unhex(cs["passphrase"]))
